@@ -739,6 +739,11 @@ class Built(object):
             self.fault_log.append((pos, fault))
             if rec is not None:
                 rec.force_sample_recording()
+        if fault == 'disable':
+            # a kill switch: recording is switched off while the operation is in flight
+            self.fault_log.append((pos, fault))
+            if rec is not None:
+                rec.disable_recording()
         op = s['op']
         if op in ('in', 'out'):
             d = self.decls[s['decl']]
